@@ -110,6 +110,20 @@ func TestVerifC05SelfCheck(t *testing.T) {
 	if _, v := c05Judge(nil, nil, nil); v != c05OK {
 		fail("oracle self-test: nil on the empty set must be accepted")
 	}
+	// 5. counters are shared per (cluster, address): the histories / schedules parts set them
+	// through one host object and rely on every later host object of that address seeing them
+	twin := c05MakeHosts(info, []string{"10.5.251.2:80"}, []uint32{1})[0]
+	c05SetCounters(hs, 0b10)
+	if twin.HostStats().UpstreamRequestActive.Count() != 1 || twin.HostStats().UpstreamConnectionActive.Count() != 1 {
+		fail("host counters are not shared between host objects of one cluster and address")
+	}
+	c05SetCounters(hs, 0)
+	// ... and so is health
+	c05SetHealth(hs, 0b01)
+	if twin.Health() {
+		fail("health is not shared between host objects of one address")
+	}
+	c05SetHealth(hs, 0b11)
 }
 
 // c05Case is one group of the sequential part; with Draws == nil the check
